@@ -172,7 +172,17 @@ def transplant(region, real_text):
     ne = len(e_toks)
     inserts = {}  # char position in real_text -> list of (text, kind)
     moved = 0
+    dropped = 0
     for (k, text, kind) in anns:
+        if kind == "inline":
+            # an inline annotation (type ascription, binder, named return) only makes sense between the two tokens it
+            # was written between; if that spot no longer exists in the real text it is dropped, never moved
+            left_ok = (k == 0) or ((k - 1) in e2r)
+            right_ok = (k >= ne) or (k in e2r)
+            adjacent = not (0 < k < ne) or (left_ok and right_ok and e2r[k] == e2r[k - 1] + 1)
+            if not (left_ok and right_ok and adjacent):
+                dropped += 1
+                continue
         if k < ne and k in e2r:
             j = e2r[k]
             ti, off = r_back[j]
@@ -208,7 +218,7 @@ def transplant(region, real_text):
         last = pos
     out.append(real_text[last:])
     changed = sum(1 for tag, *_ in sm.get_opcodes() if tag != "equal")
-    return "".join(out), {"template_tokens": ne, "real_tokens": len(r_norm), "diff_hunks": changed, "annotations_moved": moved}
+    return "".join(out), {"template_tokens": ne, "real_tokens": len(r_norm), "diff_hunks": changed, "annotations_moved": moved, "inline_annotations_dropped": dropped}
 
 
 def erase(emitted):
